@@ -439,6 +439,62 @@ def run_c07(seed, tier, log):
     return res
 
 
+def run_c12(seed, tier, log):
+    """C12 (ii) on the implementation: a census of the opcodes occurring in the outputs of seeds 0..N with default
+    settings, per protocol; every opcode of the vocabulary needs a seed, protocols >= 4 a framed and an unframed one"""
+    key = hashlib.sha256(('%s|%s|%s|c12' % (repo_hash(), model_hash(), tier)).encode()).hexdigest()[:24]
+    d = os.path.join(CACHE, key)
+    res_path = os.path.join(d, 'c12.json')
+    if os.path.exists(res_path):
+        log('c12: cached result %s' % key)
+        return json.load(open(res_path))
+    os.makedirs(d, exist_ok=True)
+    n = 6000 if tier == "quick" else 60000
+    t0 = time.time()
+    voc = {}
+    p = subprocess.run([DRIVER, 'vocab'], stdout=subprocess.PIPE, text=True, env=ENV, timeout=600)
+    for l in p.stdout.splitlines():
+        m = re.match(r'VOCAB v=(\d) (.*)', l)
+        if m:
+            voc[int(m.group(1))] = {int(x.split(':')[0], 16): x.split(':')[1] for x in m.group(2).split(',')}
+    OPTIN = {0x82, 0x83, 0x84, 0x97, 0x98}
+    props, samples, total = [], [], 0
+    for (ext, buf, nn) in ((0, 0, n), (1, 1, max(300, n // 5))):
+        p = subprocess.run([HBIN, 'census', str(nn), str(ext), str(buf)], stdout=subprocess.PIPE, stderr=subprocess.PIPE, text=True, env=ENV, timeout=3000)
+        if p.returncode != 0:
+            raise Infra('census failed: ' + p.stderr[-1000:])
+        for l in p.stdout.splitlines():
+            m = re.match(r'CENSUS v=(\d) seeds=(\d+) framed=(\S+) unframed=(\S+) ops=(.*)', l)
+            if not m:
+                continue
+            v = int(m.group(1))
+            total += int(m.group(2))
+            seen = {int(x.split(':')[0], 16): (int(x.split(':')[1]), int(x.split(':')[2])) for x in m.group(5).split(',') if x}
+            want = {b: nm for b, nm in voc[v].items() if (b in OPTIN) == bool(ext)} if ext else {b: nm for b, nm in voc[v].items() if b not in OPTIN}
+            for b, nm in sorted(want.items()):
+                if b not in seen:
+                    props.append({'id': 'census-v%d-%s' % (v, nm), 'prop': 'C12',
+                                  'detail': 'opcode %s (0x%02x) never occurs in a protocol-%d pickle for seeds 0..%d with default settings%s' % (
+                                      nm, b, v, nn - 1, ' and both opt-in flags on' if ext else '')})
+            for b in seen:
+                if b not in voc[v] or (b in OPTIN and not ext):
+                    props.append({'id': 'census-v%d-extra-%02x' % (v, b), 'prop': 'C12', 'detail': 'opcode byte 0x%02x outside the vocabulary of protocol %d occurs (seed %d)' % (b, v, seen[b][0])})
+            if v >= 4 and not ext:
+                if m.group(3) == '-':
+                    props.append({'id': 'census-v%d-framed' % v, 'prop': 'C12', 'detail': 'no framed pickle for seeds 0..%d' % (nn - 1)})
+                if m.group(4) == '-':
+                    props.append({'id': 'census-v%d-unframed' % v, 'prop': 'C12', 'detail': 'no unframed pickle for seeds 0..%d' % (nn - 1)})
+            rare = sorted(((c, voc[v].get(b, '?'), f) for b, (f, c) in seen.items()))[:3]
+            samples.append(dict(protocol=v, flags=(ext, buf), seeds=nn, distinct_opcodes=len(seen),
+                                rarest=[dict(opcode=nm, seeds_containing=c, first_seed=f) for c, nm, f in rare]))
+    res = dict(ok=[], diffs=[], props=props, stats={}, ncases=total, okn=total, nops=total, specs={}, samples=samples)
+    for pr in props:
+        res['specs'][pr['id']] = pr['id'] + ' (pf-harness census)'
+    json.dump(res, open(res_path, 'w'))
+    log('c12: census over %d generations, %d (protocol, opcode) pairs missing, %.1fs' % (total, len(props), time.time() - t0))
+    return res
+
+
 KNOWN_DEEP = dict(v=2, n=40000, stack_kb=2048)
 
 
